@@ -478,7 +478,7 @@ class Stmts:
                 h.env[name] = self.havoc_value(h.env[name], h, name)
         wr = self.write_set(s.body + ([ast.Expr(s.test)] if kind == "while" else []))
         h.havoc(sorted(wr[0]))
-        for g in wr[1]:
+        for g in set(wr[1]) | set(getattr(spec, "loop_ghosts", ())):
             if g in h.ghost:
                 h.ghost[g] = h.fresh("G." + g, h.ghost[g].sort())
         if kind == "for":
